@@ -70,7 +70,8 @@ FUNCTIONS = {
             ('select_c03', 'filter.Filter.global_setup')],
     'C11': [('shuffle_c11', 'shuffle.Shuffle.__init__'), ('shuffle_c11', 'shuffle.Shuffle.global_setup'),
             ('find_c15', 'options.get_options@paths')],       # "the same discovered tests": search directories in command-line order
-    'C15': [('find_c15', 'find.remove_stale_bytecode'), ('find_c15', 'options.get_options'), ('find_c15', 'options.get_options@paths')],
+    'C15': [('find_c15', 'find.remove_stale_bytecode'), ('find_c15', 'options.get_options'), ('find_c15', 'options.get_options@paths'),
+            ('find_c14', 'find.walk_with_symlinks')],
     'C20': [('digraph_c20', 'digraph.DiGraph.sccs'), ('digraph_c20', 'digraph.DiGraph.sccs@partition'),
             ('digraph_c20', 'digraph.DiGraph.neighbors')],
     'C03': [('find_c09', 'find.tests_from_suite'), ('select_c03', 'find.find_tests'), ('select_c03', 'find.find_tests@order'),
@@ -89,7 +90,8 @@ FUNCTIONS = {
                                       'find.find_test_files', 'find.find_suites', 'find.test_dirs',
                                       'options.get_options@prefix')]
            + [('options_c08', 'options.get_options@filters'), ('filter_c08', 'filter.build_filtering_func'),   # what --module accepts
-              ('find_c15', 'options.get_options@paths')],
+              ('find_c15', 'options.get_options@paths'),
+              ('find_c14', 'find.walk_with_symlinks')],           # what the walk hands over per directory (sorted, pruned)
 
     'C10': [('runner_order', f) for f in ('runner.gather_layers', 'runner.order_by_bases', 'runner.order_by_bases@unitfirst', 'runner.order_by_bases@complete',
                                           'runner.layer_sort_key', 'runner.layer_sort_key._gather',
